@@ -5565,6 +5565,13 @@ func (a *Agent) handleSleepCommand(peerID identity.AgentID, frame *protocol.Fram
 		return
 	}
 
+	a.applySleepCommand(peerID, cmd)
+}
+
+// applySleepCommand acts on a sleep command received from a peer, whatever frame carried
+// it. The flooder deduplicates it, verifies its signature and timestamp when command
+// signing is configured, and forwards it; only then does the agent go to sleep.
+func (a *Agent) applySleepCommand(peerID identity.AgentID, cmd *protocol.SleepCommand) {
 	// Process through flooder for deduplication and forwarding
 	if !a.flooder.HandleSleepCommand(peerID, cmd) {
 		return
@@ -5594,6 +5601,12 @@ func (a *Agent) handleWakeCommand(peerID identity.AgentID, frame *protocol.Frame
 		return
 	}
 
+	a.applyWakeCommand(peerID, cmd)
+}
+
+// applyWakeCommand acts on a wake command received from a peer, whatever frame carried it
+// (see applySleepCommand).
+func (a *Agent) applyWakeCommand(peerID identity.AgentID, cmd *protocol.WakeCommand) {
 	// Process through flooder for deduplication and forwarding
 	if !a.flooder.HandleWakeCommand(peerID, cmd) {
 		return
@@ -5680,20 +5693,13 @@ func (a *Agent) handleQueuedState(peerID identity.AgentID, frame *protocol.Frame
 		a.flooder.HandleNodeInfoAdvertise(peerID, nodeInfo.OriginAgent, nodeInfo.Sequence, nodeInfo.EncInfo, nodeInfo.SeenBy)
 	}
 
-	// Check for sleep/wake commands in queued state
-	if state.SleepCmd != nil && a.sleepMgr != nil {
-		a.logger.Info("entering sleep mode from queued command")
-		if err := a.sleepMgr.Sleep(); err != nil {
-			a.logger.Error("failed to enter sleep mode from queued command",
-				logging.KeyError, err)
-		}
+	// Sleep/wake commands in queued state go through the same deduplication and
+	// verification as flooded commands
+	if state.SleepCmd != nil {
+		a.applySleepCommand(peerID, state.SleepCmd)
 	}
-	if state.WakeCmd != nil && a.sleepMgr != nil {
-		a.logger.Info("waking from queued command")
-		if err := a.sleepMgr.Wake(); err != nil {
-			a.logger.Error("failed to wake from queued command",
-				logging.KeyError, err)
-		}
+	if state.WakeCmd != nil {
+		a.applyWakeCommand(peerID, state.WakeCmd)
 	}
 }
 
